@@ -99,6 +99,48 @@ pub fn psk_secret(alg: HashAlg, psks: &[(Vec<u8>, Vec<u8>)]) -> Vec<u8> {
     acc
 }
 
+/// key and nonce of generation `generation` of a leaf's handshake / application ratchet (RFC 9420 §9)
+pub fn message_key(alg: HashAlg, encryption: &[u8], n_leaves: u32, leaf: u32, app: bool, generation: u32, nk: usize, nn: usize) -> (Vec<u8>, Vec<u8>) {
+    let nh = alg.len();
+    // secret tree: walk from the root to the leaf
+    let mut secret = encryption.to_vec();
+    let (mut lo, mut hi) = (0u32, n_leaves);
+    while hi - lo > 1 {
+        let mid = (lo + hi) / 2;
+        if leaf < mid {
+            secret = alg.expand_with_label(&secret, "tree", b"left", nh);
+            hi = mid;
+        } else {
+            secret = alg.expand_with_label(&secret, "tree", b"right", nh);
+            lo = mid;
+        }
+    }
+    let mut ratchet = alg.expand_with_label(&secret, if app { "application" } else { "handshake" }, &[], nh);
+    for j in 0..generation {
+        ratchet = alg.expand_with_label(&ratchet, "secret", &j.to_be_bytes(), nh);
+    }
+    let key = alg.expand_with_label(&ratchet, "key", &generation.to_be_bytes(), nk);
+    let nonce = alg.expand_with_label(&ratchet, "nonce", &generation.to_be_bytes(), nn);
+    (key, nonce)
+}
+
+/// MLS-Exporter (RFC 9420 §8.5)
+pub fn export(alg: HashAlg, exporter: &[u8], label: &[u8], ctx: &[u8], len: usize) -> Vec<u8> {
+    let mut info_label = b"MLS 1.0 ".to_vec();
+    info_label.extend_from_slice(label);
+    // DeriveSecret(exporter, label) then ExpandWithLabel(., "exported", Hash(context), len)
+    let mut info = vec![];
+    info.extend_from_slice(&(alg.len() as u16).to_be_bytes());
+    put_vec(&mut info, &info_label);
+    put_vec(&mut info, &[]);
+    let derived = alg.expand(exporter, &info, alg.len());
+    alg.expand_with_label(&derived, "exported", &alg.hash(ctx), len)
+}
+
+pub fn aead_sizes(cs: u16) -> (usize, usize) {
+    sizes(cs)
+}
+
 fn parse_psk_ids(b: &[u8]) -> Vec<PskId> {
     let mut r = Rd::new(b);
     let mut out = vec![];
@@ -469,29 +511,10 @@ fn check_message_keys(w: &mut World, p: usize, g: usize, id: u64, seals: &[(Vec<
         return Ok(());
     }
     let alg = HashAlg::for_suite(w.cfg.suite);
-    let nh = alg.len();
     let (nk, nn) = sizes(w.cfg.suite);
-    // secret tree: walk from the root to the leaf
-    let mut secret = re.encryption.clone();
-    let (mut lo, mut hi) = (0u32, tree.full_leaves());
-    while hi - lo > 1 {
-        let mid = (lo + hi) / 2;
-        if leaf < mid {
-            secret = alg.expand_with_label(&secret, "tree", b"left", nh);
-            hi = mid;
-        } else {
-            secret = alg.expand_with_label(&secret, "tree", b"right", nh);
-            lo = mid;
-        }
-    }
     let app = msg.kind == MsgKind::App;
-    let mut ratchet = alg.expand_with_label(&secret, if app { "application" } else { "handshake" }, &[], nh);
     let generation = msg.gen;
-    for j in 0..generation {
-        ratchet = alg.expand_with_label(&ratchet, "secret", &j.to_be_bytes(), nh);
-    }
-    let key = alg.expand_with_label(&ratchet, "key", &generation.to_be_bytes(), nk);
-    let nonce = alg.expand_with_label(&ratchet, "nonce", &generation.to_be_bytes(), nn);
+    let (key, nonce) = message_key(alg, &re.encryption, tree.full_leaves(), leaf, app, generation, nk, nn);
     w.stats.check("message-key-equals-reference");
     let found = seals
         .iter()
@@ -522,7 +545,7 @@ fn check_message_keys(w: &mut World, p: usize, g: usize, id: u64, seals: &[(Vec<
         Some(r.vec().ok()?.to_vec())
     })();
     if let Some(ct) = ct {
-        let sample = &ct[..nh.min(ct.len())];
+        let sample = &ct[..alg.len().min(ct.len())];
         let sk = alg.expand_with_label(&re.sender_data, "key", sample, nk);
         let sn = alg.expand_with_label(&re.sender_data, "nonce", sample, nn);
         w.stats.check("sender-data-key-equals-reference");
@@ -764,15 +787,7 @@ pub fn on_epoch(w: &mut World, p: usize, g: usize, how: &str) -> VResult<()> {
     }
     for k in 0..3u64 {
         let (label, ctx, len) = w.export_params(g, epoch, k);
-        let mut info_label = b"MLS 1.0 ".to_vec();
-        info_label.extend_from_slice(&label);
-        // DeriveSecret(exporter, label) then ExpandWithLabel(., "exported", Hash(context), len)
-        let mut info = vec![];
-        info.extend_from_slice(&(alg.len() as u16).to_be_bytes());
-        put_vec(&mut info, &info_label);
-        put_vec(&mut info, &[]);
-        let derived = alg.expand(&re.exporter, &info, alg.len());
-        let want = alg.expand_with_label(&derived, "exported", &alg.hash(&ctx), len);
+        let want = export(alg, &re.exporter, &label, &ctx, len);
         w.stats.check("exported-secret-equals-reference");
         if rec.exports.get(k as usize) != Some(&want) {
             return Err(viol(
